@@ -52,7 +52,7 @@ func main() {
 	pkgsFlag := flag.String("pkgs", ".,persist/file,persist/s3", "package dirs relative to repo")
 	knownPath := flag.String("known", "/verif/known-findings.json", "known findings file")
 	replayDir := flag.String("replays", "/verif/replays", "replay directory")
-	workers := flag.Int("j", 16, "parallel solver processes")
+	workers := flag.Int("j", 8, "parallel solver processes")
 	verbose := flag.Bool("v", false, "verbose")
 	listOnly := flag.Bool("list", false, "list obligations only")
 	flag.Parse()
@@ -198,6 +198,8 @@ func main() {
 		}
 	}
 	nOb, nDis, nCover, nCoverOK := 0, 0, 0, 0
+	slowest, slowName := 0.0, ""
+	solverErrors := []string{}
 	bySolver := map[string]int{}
 	byKind := map[string]int{}
 	solverTime := 0.0
@@ -225,6 +227,9 @@ func main() {
 		nOb++
 		byKind[ob.Kind]++
 		if r.Status == "unsat" {
+			if r.Seconds > slowest {
+				slowest, slowName = r.Seconds, ob.Name
+			}
 			nDis++
 			bySolver[r.Solver]++
 			if len(samples) < 6 {
@@ -234,6 +239,10 @@ func main() {
 		}
 		if *verbose {
 			fmt.Printf("  FAILED %s (%s) %v\n", ob.Name, r.Status, r.Tried)
+		}
+		if r.Status == "error" {
+			solverErrors = append(solverErrors, fmt.Sprintf("UNDECIDED solver-error %s: %s", ob.Name, firstLines(r.Output, 3)))
+			continue
 		}
 		failedNames = append(failedNames, ob.Name)
 		if k, ok := openKnown[stripOrdinal(ob.Name)]; ok {
@@ -271,6 +280,9 @@ func main() {
 		fmt.Println(v)
 	}
 	wall := time.Since(t0).Seconds()
+	if *verbose {
+		fmt.Printf("slowest discharged obligation: %s %.2fs\n", slowName, slowest)
+	}
 	fmt.Printf("govc: property=%s tier=%s functions=%d obligations=%d discharged=%d known-findings=%d violations=%d covers=%d/%d wall=%.1fs solver=%.1fs\n",
 		*prop, *tier, len(funcsUnder), nOb, nDis, len(knownHit), len(violations), nCoverOK, nCover, wall, solverTime)
 	if *evid != "" {
@@ -322,6 +334,15 @@ func main() {
 		data, _ := json.MarshalIndent(ev, "", " ")
 		os.MkdirAll(filepath.Dir(*evid), 0755)
 		os.WriteFile(*evid, data, 0644)
+	}
+	if len(solverErrors) > 0 {
+		for i, e := range solverErrors {
+			if i < 5 {
+				fmt.Println(e)
+			}
+		}
+		fmt.Printf("UNDECIDED %d obligations could not be parsed by any solver (tool error, not a verdict)\n", len(solverErrors))
+		os.Exit(2)
 	}
 	if len(violations) > 0 {
 		os.Exit(1)
